@@ -92,13 +92,24 @@ def _timed_kw(draw, n):
 reg(Op("ema_timed", "row", lambda gb, v, m, kw: gb.ema(v, mask=m, halflife=kw["halflife"],
                                                        times=np.array(kw["times"], dtype="int64").view("M8[ns]")),
        masks=BOOL_ONLY, float_tol=True, value_kinds="fi", kw=_timed_kw))
-ROW_KW = ("times",)  # keyword arguments that are row-aligned lists (must be filtered with the rows)
+ROW_KW = ("times", "vals2")  # keyword arguments that are row-aligned lists (must be filtered with the rows)
 for _n in ("head", "tail"):
     reg(Op(_n, "sel", (lambda nm: lambda gb, v, m, kw: getattr(gb, nm)(v, n=kw["n"], keep_input_index=True))(_n), masks=NO_MASK,
            kw=lambda draw, n: {"n": draw(st.integers(0, 4))}))
 reg(Op("nth", "sel", lambda gb, v, m, kw: gb.nth(v, n=kw["n"], keep_input_index=True), masks=NO_MASK,
        kw=lambda draw, n: {"n": draw(st.integers(-3, 3))}))
 reg(Op("agg_list", "red", lambda gb, v, m, kw: gb.agg(v, agg_func=["sum", "max", "count"], mask=m), float_tol=True, value_kinds="fiu"))
+
+reg(Op("apply_max", "red", lambda gb, v, m, kw: gb.apply(v, np.max, mask=m), masks=BOOL_ONLY, value_kinds="fi"))
+def _denominator(v, vals2):
+    """ratio() refuses inputs whose null positions differ (documented precondition): the denominator follows the numerator"""
+    d = np.array(vals2, dtype="float64")
+    d[np.asarray(pd.isna(v))] = np.nan
+    return d
+
+
+reg(Op("ratio", "red", lambda gb, v, m, kw: gb.ratio(v, _denominator(v, kw["vals2"]), mask=m), float_tol=True, value_kinds="fi",
+       kw=lambda draw, n: {"vals2": draw(st.lists(st.sampled_from([1.0, 2.0, 4.0, 0.5]), min_size=n, max_size=n))}))
 
 REDUCTIONS = [o for o in OPS.values() if o.kind == "red"]
 ROW_OPS = [o for o in OPS.values() if o.kind == "row"]
